@@ -8,12 +8,13 @@ SPEC = {
                  'EV.Merkle.cache_init', 'EV.Merkle.cache_extend', 'EV.Merkle.cache_truncate',
                  'EV.Merkle.cache_source_change', 'EV.Merkle.cache_correct', 'EV.Merkle.cache_rejects',
                  'EV.Merkle.cache_any_sequence',
-                 'EV.Merkle.rfpLoop_inj', 'EV.Merkle.bar_binds', 'EV.Merkle.bar_binds_unique'],
+                 'EV.Merkle.rfpLoop_inj', 'EV.Merkle.bar_binds', 'EV.Merkle.bar_binds_unique',
+                 'EV.Merkle.rfpTscLoop_inj_leaf', 'EV.Merkle.bar_binds_tsc'],
     'suites': ['merkle'],
     'assumptions': [
         'no assumption on the hash function: the theorems are generic in H(a, b) = hash_func(a + b) and hold as equalities of terms',
         'exception: the binding theorems (rfpLoop_inj, bar_binds, bar_binds_unique: a verifying classic proof of the natural length '
-        'determines the leaf and the branch) carry the explicit hypothesis Collisionless H (H a b = H c d -> a = c and b = d); it is '
+        'determines the leaf and the branch; rfpTscLoop_inj_leaf, bar_binds_tsc: a verifying TSC proof determines the leaf) carry the explicit hypothesis Collisionless H (H a b = H c d -> a = c and b = d); it is '
         'satisfied by the free term hash of the examples and is NOT claimed for double-SHA256; they go beyond the property text '
         '(soundness of verification, not only completeness) and no check outcome depends on them',
         'cache theorems: requested lengths are within the source (length <= len(src)) and source_func(i, c) returns src[i:i+c]; '
